@@ -173,7 +173,7 @@ def extract_solist(ctx, sliced, fired):
     t = rw.sub(t, r'\bprepare_bucket\(', 'STUB_prepare_bucket(self, ', 1, 1, name='callee stub (proved in solist.bucket)')
     t = rw.sub(t, r'\bcreate_insert_node\(', 'STUB_create_insert_node(self, ', 1, 1, name='callee stub (node factory)')
     t = rw.sub(t, r'\badjust_table_size\(', 'STUB_adjust_table_size(self, ', 0, name='callee stub (proved in bcount.adjust)')
-    t = rw.sub(t, r'\bsplit_order_key_regular\(', 'split_order_key_regular(', 1, 1, name='callee (sliced, sokey.inc)')
+    t = rw.sub(t, r'\bsplit_order_key_regular\(', 'STUB_split_order_key_regular(', 1, 1, name='callee stub (proved in sokey.order: odd, a function of the hash)')
     t = rw.sub(t, r'internal_insert_return_type\{', '(struct iir){', 1, name='braced temporary -> compound literal')
     t = rw.atomics(t, ['my_size', 'my_bucket_count'], 0)
     t = rw.sub(t, r'(?<![\w.>])(my_size|my_bucket_count)\b', r'self->\1', 0, name='field')
